@@ -964,10 +964,10 @@ func c09Prepare(x *c09Hist) (*c09PruneRun, bool) {
 }
 
 func streamC09(h *H) {
-	nh := h.N(4, 48)
+	nh := h.N(4, 32)
 	nopt := 3
 	if h.Thorough() {
-		nopt = 6
+		nopt = 5
 	}
 	for i := 0; i < nh; i++ {
 		x := c09GenHistory(h)
